@@ -389,6 +389,16 @@ fn gen_delegation_method<'s>(
     // The delegating method needs one plain identifier per parameter to forward:
     let mut fn_sig = trait_fn.sig().clone();
     crate::signature::fn_params::fix_fn_param_idents(&mut fn_sig);
+    // In a method with a body a parameter name is a pattern: a constant or unit struct of that name
+    // in the invoking scope would be matched instead of bound. The names of the forwarding method
+    // are the macro's own (they need not be those of the declaration).
+    for (index, arg) in fn_sig.inputs.iter_mut().enumerate() {
+        if let syn::FnArg::Typed(pat_type) = arg {
+            if let syn::Pat::Ident(pat_ident) = pat_type.pat.as_mut() {
+                pat_ident.ident = syn::Ident::new(&format!("__entrait_arg{index}"), pat_ident.ident.span());
+            }
+        }
+    }
     let fn_ident = &trait_fn.sig().ident;
     let impl_t = &generic_idents.impl_t;
 
